@@ -19,7 +19,8 @@ import kani_config  # noqa
 
 
 def crate_dir(repo):
-    d = os.path.join(BUILD, 'kani')
+    import check as _c
+    d = _c.bdir(repo, 'kani')
     os.makedirs(os.path.join(d, '.cargo'), exist_ok=True)
     toml = '''[package]
 name = "vkani"
@@ -29,6 +30,7 @@ edition = "2021"
 path = "%s/kani/src/lib.rs"
 [dependencies]
 suiron = { package = "suiron-rust", path = "%s" }
+thread_timer = "0.3.0"
 [features]
 arith = []
 cmpf = []
